@@ -204,7 +204,10 @@ class C11(Check):
             '@media print, tv { a { top: 0 } /*c*/ p|b, c { left: 1px !important; color: red } @page { margin: 0 } }',
             '@page :first { margin: 1cm; @top-left { content: "x" } @bottom-center { color: red } }',
             'a, b > c { color: red; top: 0 !important; color: rgb(1, 2, 3); background: url(x.png) no-repeat }',
-            'p|x { left: 0 }', '@foo bar { x: y }', '.k { width: calc(1px + 2px); font: 12px/1.5 "A", serif }'])})
+            'p|x { left: 0 }', '@foo bar { x: y }', '.k { width: calc(1px + 2px); font: 12px/1.5 "A", serif }',
+            # literal spelling differs from the normalised names (simple escape, hex escape, upper case)
+            'D\\iv > sp\\61 n, \\61 b { c\\olor: red; T\\op: 1px; \\6c eft: 2px !IMPORTANT; COLOR: blue }',
+            '@media PR\\int, T\\56 { \\61 { t\\op: 0 } }'])})
         for st in states + cr.STANDALONE:
             try:
                 root, sheet, fetch = cr.build_state(st)
